@@ -306,7 +306,14 @@ func c02Corrupt(c *Ctx) {
 				if r.IntN(8) == 0 {
 					l = 0
 				}
-				recs = append(recs, genFastqRecord(r, l))
+				if k.Idx%4 == 3 { // lines longer than an error message would quote in full
+					l = 61 + r.IntN(140)
+				}
+				rec := genFastqRecord(r, l)
+				if k.Idx%4 == 3 && r.IntN(2) == 0 {
+					rec.Name = randBytesExcl(r, 61+r.IntN(140), noCRLF)
+				}
+				recs = append(recs, rec)
 			}
 			i := r.IntN(nrec)
 			k.Input("records", func() string { return fastqListString(recs) })
